@@ -253,6 +253,18 @@ def run(project, chk):
             chk.ok("R1", f"{project.loc(fi.module, fi.node)} {fi.short}", f"reaches no I/O primitive ({len(reach)} functions in its call closure)",
                    "transitive closure over resolved calls and property loads")
 
+    # ---------------------------------------------------------------- R7 defaults: nothing is requested unless the caller asks
+    chk.rule("R7", "the show / save_report parameters default to False (previews and reports are opt-in)")
+    for q7 in (MAKE, BULK):
+        f7 = project.func(q7)
+        for pn in ("show", "save_report"):
+            if pn not in f7.params():
+                continue
+            d7 = f7.defaults().get(pn)
+            ok7 = isinstance(d7, ast.Constant) and d7.value is False
+            chk.check(ok7, "R7", f7.short, f"{pn}={norm_text(d7) if d7 is not None else '<required>'}", project.loc(f7.module, d7 if d7 is not None else f7.node), f"{f7.name}({pn}=False) by default", how="constant default False", nontrivial=False,
+                      message=f"{pn} defaults to {norm_text(d7) if d7 is not None else 'no value'}: a plain call writes output / files without being asked")
+
     # ---------------------------------------------------------------- R2..R4 per API function
     total_io_nodes = 0
     for q, file_param in ((MAKE, "save_report"), (BULK, "save_report")):
